@@ -150,7 +150,12 @@ CLAIMS.update({
              "turns a loose state into the exactly right list (C06_update_run_contract_loose); C07_history: through any sequence of rescoring / appended-edit / unchanged-pattern "
              "runs, each completed or cancelled anywhere, the worker is loose between runs and exactly right after every completed run - in particular an appended edit arriving "
              "while the previous run is being cancelled is handled correctly. The protocol facts the history theorem assumes (an unchanged-pattern run only follows a completed run; "
-             "Update only for a narrowing edit) are C07's rule and C19's invariant; their composition into one statement over tick histories is not a theorem. "
+             "Update only for a narrowing edit) are C07's rule and C19's invariant. The composition with the tick protocol is a theorem too (companion file C07_Protocol, "
+             "C07_protocol): for every history of injector/clone/drop, reparse (Update only for a narrowing edit), restart(true|false) and tick - every lock outcome, runs "
+             "completing or cancelled anywhere, cleared runs after a restart - a tick that reports running = false leaves a snapshot holding exactly the current pattern's "
+             "matches with their scores among the accounted items of the current stream, in the worker's order, and with nothing in flight that is the from-scratch result "
+             "over all of them; the environment hypotheses say that a joined run is Worker.run on the pending status with observations consistent with the stream. "
+             "Restriction: non-empty patterns (the empty pattern takes process_new_items_trivial: C06_trivial_run_contract). "
              "Convergence is also checked end to end: every generated history is driven to quiescence "
              "and its snapshot compared with a fresh Nucleo fed the same items and final pattern (oracle independent of the model).",
         note=NU_NOTE),
